@@ -231,29 +231,37 @@ def _change_guards(ctx, rep, rule: str) -> None:
     # distributors
     for c in sp.dist_classes:
         meth = repo.lookup_method(c, "merge_and_block_gradients")
-        ifs = [n for n in meth.node.body if isinstance(n, ast.If)]
-        if len(ifs) != 1:
-            raise AnalysisError(f"{rule}: expected one change-detection `if` in {c.name}.merge_and_block_gradients, found {len(ifs)}")
-        iff = ifs[0]
-        t = iff.test
-        ok_test = isinstance(t, ast.Compare) and len(t.ops) == 1 and isinstance(t.ops[0], ast.NotEq)
-        sides = {ast.unparse(t.left), ast.unparse(t.comparators[0])} if ok_test else set()
         cur, prev = "self._global_grad_selector", "self._previous_global_grad_selector"
-        ok_test = ok_test and sides == {cur, prev}
-        # remembered selector updated inside from the current one
-        upd = [n for n in iff.body if isinstance(n, ast.Assign) and ast.unparse(n.targets[0]) == prev and ast.unparse(n.value) == cur]
-        # selectors read inside the block
-        used = {ast.unparse(n) for st in iff.body for n in ast.walk(st) if isinstance(n, ast.Attribute) and n.attr.endswith("_selector") and isinstance(n.value, ast.Name) and n.value.id == "self"}
+
+        def is_change_test(t):
+            return isinstance(t, ast.Compare) and len(t.ops) == 1 and isinstance(t.ops[0], ast.NotEq) and {ast.unparse(t.left), ast.unparse(t.comparators[0])} == {cur, prev}
+
+        ifs = [n for n in A.walk_no_nested(meth.node) if isinstance(n, ast.If) and is_change_test(n.test)]
+        other_ifs = [n for n in meth.node.body if isinstance(n, ast.If) and not is_change_test(n.test)]
+        if not ifs:
+            iff = other_ifs[0] if other_ifs else None
+            rep.ob(rule, f"change-guard:{c.name}.merge_and_block_gradients", False, meth.loc(iff) if iff is not None else meth.loc(), f"re-mask guard is `{ast.unparse(iff.test) if iff is not None else '<none>'}`; it must compare the current global gradient selector with the remembered one: a guard on anything that does not determine all masked lists (a count, only the local selector) leaves them stale when the set of gradients changes", sample=True)
+            continue
+        mcfg = CFG(meth.node)
+        upd_all = [n for n in A.walk_no_nested(meth.node) if isinstance(n, ast.Assign) and ast.unparse(n.targets[0]) == prev]
+        stale = []
+        for iff in ifs:
+            tn = mcfg.node_of(iff.test)
+            # the remembered selector must still be the previous one when it is compared: no update of it reaches the test
+            for u in upd_all:
+                un = mcfg.node_of(u)
+                if un is not None and tn is not None and un is not tn and tn in mcfg.reachable(un) and not any(x is u for st in iff.body for x in ast.walk(st)):
+                    stale.append((iff, u))
+        upd = [n for iff in ifs for n in iff.body if isinstance(n, ast.Assign) and ast.unparse(n.targets[0]) == prev and ast.unparse(n.value) == cur]
+        used = {ast.unparse(n) for iff in ifs for st in iff.body for n in ast.walk(st) if isinstance(n, ast.Attribute) and n.attr.endswith("_selector") and isinstance(n.value, ast.Name) and n.value.id == "self"}
         rep.ob(
             rule,
             f"change-guard:{c.name}.merge_and_block_gradients",
-            ok_test and len(upd) == 1,
-            meth.loc(iff),
-            f"re-mask guard is `{ast.unparse(t)}`; it must compare the current global gradient selector with the remembered one and update the remembered one inside (selectors used inside: {sorted(used)}): a guard on a selector that does not determine all of them (e.g. only the local one) leaves the global masked lists stale when other ranks' gradients change",
+            not stale and len(upd) == 1 and len(upd_all) == 1,
+            meth.loc(stale[0][0] if stale else ifs[0]),
+            f"{len(ifs)} re-mask guard(s) comparing the current global gradient selector with the remembered one; the remembered one is updated once, inside a guard ({len(upd)} of {len(upd_all)} update(s)), and never before a guard that still has to compare it ({'stale comparison: the update at line ' + str(stale[0][1].lineno) + ' runs first, so the guard at line ' + str(stale[0][0].lineno) + ' can never fire' if stale else 'ok'}) (selectors used inside: {sorted(used)})",
             sample=True,
         )
-        if not iff.orelse:
-            pass
     # state lists
     msl = repo.method(DS, "_mask_state_lists")
     m = msl.module
